@@ -1,11 +1,25 @@
 #!/bin/bash
 # Builds the framework from files on disk only (offline): the Lean project (models, theorems,
-# drivers) and a warm Go build cache for the harnesses. Run once after a fresh restore.
+# drivers of every claimed check) and a warm Go build cache for the harnesses.
 set -e
 cd "$(dirname "$0")"
 export GOFLAGS=-mod=mod GOPROXY=off GOSUMDB=off GOTOOLCHAIN=local
 mkdir -p .build replays evidence
-(cd lean && lake build ApiFu $(grep -A1 '^\[\[lean_exe\]\]' lakefile.toml | sed -n 's/^name = "\(.*\)"/\1/p'))
+TARGETS=$(python3 - <<'PY'
+import glob, json
+t = ["ApiFu"]
+for f in sorted(glob.glob("checks/C*.json")):
+    c = json.load(open(f))
+    if c.get("claimed", True):
+        for x in c.get("lean_targets", []):
+            if x not in t: t.append(x)
+print(" ".join(t))
+PY
+)
+(cd lean && lake build $TARGETS)
 cp /repo/go.sum harness/go.sum
-(cd harness && go build -tags verif -o /dev/null ./... ) || (cd harness && go vet -tags verif ./... ; exit 1)
+for f in checks/C*.json; do
+  h=$(python3 -c "import json,sys; c=json.load(open('$f')); print(c.get('harness','') if c.get('claimed',True) else '')")
+  if [ -n "$h" ]; then (cd harness && go build -tags verif -o /dev/null ./cmd/$h); fi
+done
 echo "setup ok"
